@@ -6,6 +6,11 @@ pub const S_INT: [f64; 5] = [1.0, 0.0, -1.0, 3.0, -2.0];
 pub const S_POS: [f64; 4] = [1.0, 2.0, 4.0, 7.0];
 pub const S_POS5: [f64; 5] = [1.0, 2.0, 4.0, 7.0, 2.5];
 pub const S_ROUGH: [f64; 7] = [0.1, -0.3, 7.7, 1e-3, 16_777_217.0, 1e12, -1e12];
+/// positive prices in a tiny unit (2^-60 ~ 8.7e-19): absolute epsilons and thresholds show here
+pub const TINY: f64 = 8.673617379884035e-19;
+pub const S_TINY: [f64; 4] = [1.0 * TINY, 2.0 * TINY, 4.0 * TINY, 7.0 * TINY];
+/// values spanning 26 decades (outlier spikes)
+pub const S_WIDE: [f64; 5] = [1.0, 3.0, 1e9, 1e17, 1e-9];
 pub const S_SPECIAL: [f64; 7] = [
     f64::NAN,
     f64::INFINITY,
@@ -85,6 +90,10 @@ pub fn b_special() -> Vec<Bar> {
         Bar { o: 0.0, h: 0.0, l: -0.0, c: 5e-324, v: -1.0 },
         Bar { o: 1.0, h: f64::NEG_INFINITY, l: f64::INFINITY, c: f64::NAN, v: 0.0 },
     ]
+}
+
+pub fn scale_bars(bs: &[Bar], c: f64) -> Vec<Bar> {
+    bs.iter().map(|b| Bar { o: b.o * c, h: b.h * c, l: b.l * c, c: b.c * c, v: b.v }).collect()
 }
 
 pub const MULT: [f64; 4] = [2.0, 0.0, 0.5, 3.0];
